@@ -302,7 +302,10 @@ partial def evalV (x : Ctx) : V → R Bits
     -- every iterator kind feeds `extend` the same symbols; only size hints differ
     let bs ← evalV x v
     let ss ← symsOfAscii x.c bytes
-    if ["filter", "takewhile", "fromfn", "trait"].contains kind then pure (Seq.extend x.c bs ss)
+    if ["filter", "takewhile", "fromfn", "trait", "iterpeek"].contains kind then pure (Seq.extend x.c bs ss)
+    -- a partly consumed symbol iterator of another sequence: what is left of it
+    else if kind = "iterskip" ∨ kind = "iternext" then pure (Seq.extend x.c bs (ss.drop 1))
+    else if kind = "reviterskip" then pure (Seq.extend x.c bs (ss.reverse.drop 1))
     else .error (.badOp "ext kind")
   | .append v s => do let bs ← evalV x v; let o ← evalS x s; pure (Seq.append bs o)
   | .prepend v s => do let bs ← evalV x v; let o ← evalS x s; pure (Seq.prepend bs o)
@@ -644,6 +647,21 @@ def query (x : Ctx) (q : String) : Q String := do
   | "usize" => do
     let s ← qlift parseS; let bs ← qr (evalS x s)
     let r ← qres (Seq.toUsize bs); pure (toString r)
+  | "owned" => do
+    let i ← qlift num
+    let v ← qlift parseV; let bs ← qr (evalV x v)
+    let n := Seq.len c bs
+    let g ← qres (Seq.get x.p c bs i)
+    let gs := match g with | some s => hex2 s | none => "none"
+    let nth ← if i < n then do let s ← qres (Seq.nth x.p c bs i); pure (hex2 s) else pure "-"
+    let f ← qres (seqRes (Iter.iter x.p c bs))
+    let b ← qres (seqRes (Iter.revIter x.p c bs))
+    let w := i % 3 + 1
+    let ws ← qres (seqRes (Iter.windows x.p c bs w))
+    let cs ← qres (seqRes (Iter.chunks x.p c bs w))
+    let d := displayHex x bs
+    if d = "panic" then pure "panic" else
+    pure s!"{n} {boolStr (n == 0)} {gs} {gs} {nth} {codesStr f} {codesStr f} {codesStr b} {d} {content c bs} {content c bs} {slicesStr c ws} {slicesStr c cs} true"
   | "showv" => do
     let v ← qlift parseV; let bs ← qr (evalV x v)
     let d := displayHex x bs
